@@ -1,0 +1,44 @@
+//go:build verif
+
+package syncutil
+
+import "sync"
+
+// SimHook, when set, is called at the scheduling-relevant points of this
+// package.  It only exists in builds with the verif tag and is used by the
+// deterministic simulator.
+var SimHook func(site string)
+
+// SimPoolGet and SimPoolPut, when set, let the simulator stand in for the
+// [sync.Pool] behind a [Pool].  SimPoolGet reports ok=false for a miss, in
+// which case the real (then always empty) pool constructs a new value.
+// SimPoolPut reports whether it has taken v.
+var (
+	SimPoolGet func(pool *sync.Pool) (v any, ok bool)
+	SimPoolPut func(pool *sync.Pool, v any) (ok bool)
+)
+
+// simPoint forwards to SimHook if it is set.
+func simPoint(site string) {
+	if h := SimHook; h != nil {
+		h(site)
+	}
+}
+
+// simPoolGet forwards to SimPoolGet if it is set.
+func simPoolGet(pool *sync.Pool) (v any, ok bool) {
+	if h := SimPoolGet; h != nil {
+		return h(pool)
+	}
+
+	return nil, false
+}
+
+// simPoolPut forwards to SimPoolPut if it is set.
+func simPoolPut(pool *sync.Pool, v any) (ok bool) {
+	if h := SimPoolPut; h != nil {
+		return h(pool, v)
+	}
+
+	return false
+}
